@@ -248,6 +248,7 @@ def _subhint_soundness(ctx, repo):
 
     _base_branch(ctx)
     _union_subhint(ctx)
+    _eq_without_hash(ctx)
 
 
 def typehint_cache(ctx, RULE):
@@ -517,3 +518,25 @@ def _union_subhint(ctx):
     finally:
         F.isinstance_hook = saved_i
     ctx.floor('C19.R10', n, 12, 'abstract union pairs')
+
+
+def _eq_without_hash(ctx):
+    """R11: a class body that defines __eq__ without __hash__ gets __hash__ = None from Python: its instances are unhashable."""
+    repo = ctx.repo
+    ctx.rule('C19.R11', 'wrappers that compare equal have equal hashes — in particular they have hashes: every class of the package '
+             '(all of beartype/, the TypeHint subclasses among them) whose body defines __eq__ also defines or assigns __hash__; '
+             'Python sets __hash__ to None for a class that defines only __eq__, so a TypeHint subclass with a refined __eq__ '
+             'makes `child in parent`, set(parent) and dictionaries of wrappers raise TypeError')
+    n = k = 0
+    for mn, m in sorted(repo.modules.items()):
+        for c in [x for x in ast.walk(m.tree) if isinstance(x, ast.ClassDef)]:
+            k += 1
+            names = {f.name for f in c.body if isinstance(f, (ast.FunctionDef, ast.AsyncFunctionDef))}
+            assigned = {t.id for s_ in c.body if isinstance(s_, ast.Assign) for t in s_.targets if isinstance(t, ast.Name)}
+            if '__eq__' not in names:
+                continue
+            n += 1
+            ctx.ob('C19.R11', f'eq-with-hash:{mn.rsplit(".", 1)[-1]}.{c.name}', m.where(c), 'a class defining __eq__ defines __hash__',
+                   '__hash__' in names | assigned, f'class {c.name} defines __eq__ only: its instances are unhashable')
+    ctx.ob('C19.R11', 'eq-with-hash:classes-scanned', 'beartype/door/_cls/doorsuper.py:0', f'{k} classes scanned, {n} define __eq__',
+           k >= 150 and n >= 3, f'{k} classes, {n} with __eq__')
